@@ -121,6 +121,21 @@ func checkC16(r *core.Run) {
 			}
 		}
 	}
+	// hidden state between calls (runs first, sequentially)
+	var items []pairItem
+	for _, sel := range []string{"a", "", "a b", "a[b=\"c\"]", "a[b='c']", "a[b=\"}\"]", "a{", "a}", "a;", "@a", "a<b", "a\\{", "a(", "a)", "a[(])", "a:not(b)", "url(x)", "Url(x)", "a,b", "a/*", "\"", "'", "a\nb",
+		"[" + strings.Repeat("(", 65) + strings.Repeat(")", 65) + ")", strings.Repeat("a", 300), strings.Repeat("\"x\"", 100) + "{"} {
+		for _, si := range []int{0, 1} {
+			sel, si := sel, si
+			items = append(items, pairItem{name: sel + "\x00" + fmt.Sprint(si), replay: map[string]interface{}{"Selector": sel, "Style": si}, judge: func() (cl, what string) {
+				if pn, msg := core.Try(func() { cl, _, what = c16Judge(sel, c16Styles[si]) }); pn {
+					return "panic", "panicked: " + msg
+				}
+				return cl, what
+			}})
+		}
+	}
+	pairLayer(r, items)
 	alpha := []string{"a", " ", "\"", "'", "\\", "(", ")", "[", "]", "{", "}", ";", "@", "<", "/", "*", "\n", "\f", "\r", ",", ":", "=", "é", "\x00", "url(", "URL(", "Url(", "uRl(", "urL(", ".", "#", ">", "-", "^"}
 	ln := 4
 	if r.Thorough() {
